@@ -28,6 +28,7 @@ func main() {
 	maxSteps := flag.Int("maxsteps", 5000000, "instruction budget per path")
 	loopBound := flag.Int("loop", 5000, "per-loop-head iteration bound")
 	solverMs := flag.Int("solverms", 60000, "solver timeout per query (ms)")
+	branchOneShotMs := flag.Int("branchoneshotms", 0, "cap (ms) of the one-shot retry of an undecided branch query; 0 disables")
 	oneShotMs := flag.Int("oneshotms", 60000, "cap (ms) of the retry of an unknown obligation in a fresh non-incremental z3 process; 0 disables")
 	branchMs := flag.Int("branchms", 5000, "solver timeout for branch feasibility queries (ms); unknown = branch kept")
 	solverCmd := flag.String("solver", "z3 -in", "solver command line")
@@ -58,7 +59,7 @@ func main() {
 	o.LoadSeconds = env.loadSeconds
 	cfg := &ExploreConfig{
 		Workers: *workers, MaxPaths: *maxPaths, MaxSeconds: *maxSec,
-		Run:        RunConfig{MaxSteps: *maxSteps, LoopBound: *loopBound, SolverMs: *solverMs, OneShotMs: *oneShotMs, BranchMs: *branchMs, Trace: *trace},
+		Run:        RunConfig{MaxSteps: *maxSteps, LoopBound: *loopBound, SolverMs: *solverMs, OneShotMs: *oneShotMs, BranchOneShotMs: *branchOneShotMs, BranchMs: *branchMs, Trace: *trace},
 		SolverCmd:  strings.Fields(*solverCmd),
 		WitnessMax: *witness, SolverLog: *slog,
 	}
